@@ -6,6 +6,24 @@ pub open spec fn stride_nonempty(bufs: Seq<ShardedWriteBuffer>, start: int, step
     exists|j: int| j >= 0 && owned(start, step, j) < bufs.len() && (#[trigger] bufs[owned(start, step, j)]).count.val() > 0
 }
 
+pub proof fn lemma_owned_step(w: int, count: int, j: int)
+    ensures owned(w, count, j + 1) == owned(w, count, j) + count, owned(w, count, 0) == w,
+{
+    assert((j + 1) * count == j * count + count) by (nonlinear_arith);
+}
+pub proof fn lemma_owned_mono(w: int, count: int, j: int, k: int)
+    requires count > 0, owned(w, count, j) < owned(w, count, k),
+    ensures j < k,
+{
+    if j >= k {
+        assert(j * count >= k * count) by (nonlinear_arith) requires j >= k, count > 0;
+    }
+}
+// no shard of the stride below position k has queued entries
+pub open spec fn stride_prefix_empty(bufs: Seq<ShardedWriteBuffer>, start: int, step: int, k: int) -> bool {
+    forall|j: int| 0 <= j < k && owned(start, step, j) < bufs.len() ==> (#[trigger] bufs[owned(start, step, j)]).count.val() == 0
+}
+
 // what the coordinator thread needs: at least one worker channel (step_by(0) panics)
 pub open spec fn coordinator_pre(worker_channels: Seq<WorkerSender>) -> bool {
     worker_channels.len() > 0
